@@ -51,6 +51,9 @@ fn main() {
             "C09" => checks::c09::replay(&ctx, body),
             "C08" => checks::c08::replay(&ctx, body),
             "C14" => checks::c14::replay(&ctx, body),
+            "C15" => checks::c15::replay(&ctx, body),
+            "C16" => checks::c16::replay(&ctx, body),
+            "C17" => checks::c17::replay(&ctx, body),
             "C13" => checks::c13::replay(&ctx, body),
             "C19" => checks::c19::replay(&ctx, body),
             "C18" => checks::c18::replay(&ctx, body),
@@ -74,6 +77,9 @@ fn main() {
             "C09" => checks::c09::run(&ctx),
             "C08" => checks::c08::run(&ctx),
             "C14" => checks::c14::run(&ctx),
+            "C15" => checks::c15::run(&ctx),
+            "C16" => checks::c16::run(&ctx),
+            "C17" => checks::c17::run(&ctx),
             "C13" => checks::c13::run(&ctx),
             "C19" => checks::c19::run(&ctx),
             "C18" => checks::c18::run(&ctx),
